@@ -376,7 +376,7 @@ func (ch *chainSpec) contentText(c string) string {
 // into the next. They are derived from the boot's unique in-memory host address and dropped at shutdown.
 type chainSources struct {
 	kind, bad string
-	focus     string            // the focus source; its usable contents are written padded (pad)
+	focus     string // the focus source; its usable contents are written padded (pad)
 	pad       string
 	dir       string            // files
 	prefix    string            // environment variable names
